@@ -60,9 +60,37 @@ def neutral(d):
         return {'variant': sid, 'status': 'SILENT' if not rules else 'ALARM', 'rules': rules}
     finally:
         shutil.rmtree(w, ignore_errors=True)
-ndirs = sorted(glob.glob('/verif/seeded/neutral/[NM]*'))
+ndirs = [d for d in sorted(glob.glob('/verif/seeded/neutral/*')) if os.path.exists(d + '/patch.diff')]
 with cf.ThreadPoolExecutor(8) as ex:
     neutrals = list(ex.map(neutral, ndirs))
+# mechanical behaviour-preserving rewrites (tools/neutralfuzz), one whole-package variant per rewrite: silent for this property
+TRANSFORMS = 'rename invert swapeq negform demorgan parens constextract hoistcond guard2else switch2if retlocal varform reorder splitinit mergeinit hoistarg ret2else splitand lencmp incr boolret predfunc rangeidx'.split()
+if not os.path.exists('/verif/bin/neutralfuzz') or any(os.path.getmtime(f) > os.path.getmtime('/verif/bin/neutralfuzz') for f in glob.glob('/verif/tools/neutralfuzz/*.go')):
+    subprocess.run(['go', 'build', '-o', '/verif/bin/neutralfuzz', '.'], cwd='/verif/tools/neutralfuzz', env=ENV)
+def rewrite(job):
+    t, pk = job
+    w = tempfile.mkdtemp(prefix='wc-nf.', dir='/tmp')
+    try:
+        subprocess.run(['rsync', '-a', '--exclude', '.git', '/repo/', w + '/'], check=True)
+        fz = subprocess.run(['/verif/bin/neutralfuzz', '-dir', w, '-pkg', pk, '-func', '*', '-t', t], env=ENV, capture_output=True, text=True)
+        if fz.returncode != 0 or fz.stdout.startswith('0 '):
+            return {'rewrite': t, 'package': pk, 'status': 'NOTHING-TO-REWRITE'}
+        if subprocess.run(['go', 'build', './...'], cwd=w, env=ENV, capture_output=True).returncode != 0:
+            return {'rewrite': t, 'package': pk, 'status': 'NOCOMPILE'}
+        r = subprocess.run(['/verif/bin/wirecheck', '-repo', w, '-property', prop, '-evidence', w + '/.ev', '-known', '/verif/known_findings.json'], env=ENV, capture_output=True, text=True)
+        rules = sorted({l.split()[1] for l in r.stdout.splitlines() if l.startswith('  VIOLATION') or l.startswith('  UNDECIDED')})
+        if 'cannot load' in r.stdout:
+            rules.append('cannot-load')
+        return {'rewrite': t, 'package': pk, 'sites': fz.stdout.split()[0], 'status': 'SILENT' if not rules else 'ALARM', 'rules': rules}
+    finally:
+        shutil.rmtree(w, ignore_errors=True)
+with cf.ThreadPoolExecutor(8) as ex:
+    rewrites = [x for x in ex.map(rewrite, [(t, pk) for t in TRANSFORMS for pk in ('./internal/wire', './cmd/wire')]) if x['status'] != 'NOTHING-TO-REWRITE']
+# the property's mutants refactored: three stacked rewrites on top of each, same verdict required
+out3 = tempfile.mktemp(prefix='selfval-', suffix='.json', dir='/tmp')
+subprocess.run(['python3', '/verif/tools/run_mutants.py', '-k', prop, '-j', '12', '--fuzz', '3', '--json', out3], stdout=subprocess.DEVNULL)
+mutf = [m for m in (json.load(open(out3)) if os.path.exists(out3) else []) if m.get('expect')]
+if os.path.exists(out3): os.remove(out3)
 ev_path = '/verif/evidence/%s.json' % prop
 ev = json.load(open(ev_path))
 own = [m for m in mut if m.get('expect')]
@@ -75,11 +103,18 @@ sv = {
     'seeded_changes': seeds,
     'independent_refactorings_run': len(neutrals), 'independent_refactorings_silent': sum(1 for x in neutrals if x['status'] == 'SILENT'),
     'independent_refactorings_alarming': [x for x in neutrals if x['status'] == 'ALARM'],
+    'mechanical_rewrites_run': len(rewrites), 'mechanical_rewrites_silent': sum(1 for x in rewrites if x['status'] == 'SILENT'),
+    'mechanical_rewrites': [{'rewrite': x['rewrite'], 'package': x['package'], 'sites': x.get('sites'), 'status': x['status']} for x in rewrites],
+    'mechanical_rewrites_alarming': [x for x in rewrites if x['status'] not in ('SILENT',)],
+    'mutants_refactored_run': len(mutf), 'mutants_refactored_detected': sum(1 for m in mutf if m['status'] == 'OK'),
+    'mutants_refactored_missed': [m['name'] for m in mutf if m['status'] not in ('OK', 'SKIP')],
     'note': 'self-validation on scratch copies of the current /repo tree; does not change the verdict on /repo',
 }
 ev['coverage']['self_validation'] = sv
 json.dump(ev, open(ev_path, 'w'), indent=1)
 bad = [m['name'] for m in own if m['status'] not in ('OK', 'SKIP')] + [m['name'] for m in neu if m['status'] not in ('OK', 'SKIP')] + [s['seed'] for s in seeds if s['status'] == 'MISSED']
-print('SELF-VALIDATION property=%s mutants %d/%d detected, neutral %d/%d silent, seeds %d/%d detected, independent refactorings %d/%d silent%s' % (
+bad += [x['variant'] for x in neutrals if x['status'] == 'ALARM'] + [x['rewrite'] + ':' + x['package'] for x in rewrites if x['status'] != 'SILENT'] + [m['name'] + '(refactored)' for m in mutf if m['status'] not in ('OK', 'SKIP')]
+print('SELF-VALIDATION property=%s mutants %d/%d detected, neutral %d/%d silent, seeds %d/%d detected, independent refactorings %d/%d silent, mechanical rewrites %d/%d silent, refactored mutants %d/%d detected%s' % (
     prop, sv['mutants_detected_by_expected_rule'], sv['mutants_run'], sv['neutral_variants_silent'], sv['neutral_variants_run'],
-    sv['seeded_changes_detected'], sv['seeded_changes_run'], sv['independent_refactorings_silent'], sv['independent_refactorings_run'], ('; ATTENTION: ' + ', '.join(bad)) if bad else ''))
+    sv['seeded_changes_detected'], sv['seeded_changes_run'], sv['independent_refactorings_silent'], sv['independent_refactorings_run'],
+    sv['mechanical_rewrites_silent'], sv['mechanical_rewrites_run'], sv['mutants_refactored_detected'], sv['mutants_refactored_run'], ('; ATTENTION: ' + ', '.join(bad)) if bad else ''))
